@@ -16,9 +16,10 @@ if [ -z "$res" ]; then
   go test -vet=off -count=1 ./... > /tmp/seedverify_suite.log 2>&1 && s=ok || s=FAIL
   cp $d/demo_test.go $pkg/$name
   rn=$(echo "$run" | sed -n 's/.*-run \([^ ]*\).*/\1/p')
-  (cd $pkg && go test -count=1 -run "$rn" . > /tmp/seedverify_demo1.log 2>&1) && w=PASS || w=fail
+  race=""; case "$run" in *-race*) race="-race";; esac
+  (cd $pkg && go test $race -count=1 -run "$rn" . > /tmp/seedverify_demo1.log 2>&1) && w=PASS || w=fail
   git checkout -q -- . 
-  (cd $pkg && go test -count=1 -run "$rn" . > /tmp/seedverify_demo2.log 2>&1) && wo=pass || wo=FAIL
+  (cd $pkg && go test $race -count=1 -run "$rn" . > /tmp/seedverify_demo2.log 2>&1) && wo=pass || wo=FAIL
   res="build=$b suite_with_change=$s demo_with_change=$w demo_without=$wo"
 fi
 echo "$d: $res"
